@@ -367,6 +367,20 @@ where StandardNormal: Distribution<F>, Exp1: Distribution<F>, Open01: Distributi
                 }
             }
         }
+        // NormalInverseGaussian(alpha, beta) = beta * IG + sqrt(IG) * N with IG ~ InverseGaussian(1 / gamma, 1), gamma = sqrt(alpha^2 - beta^2)
+        // (gamma evaluated as alpha * sqrt(1 - (beta / alpha)^2), the overflow-free form the constructor documents)
+        for (al, be) in [(f(2.0), f(1.0)), (f(1.0), f(0.0)), (f(4.0), f(-3.0)), (f(0.5), f(0.25)), (f(16.0), f(15.0))] {
+            let Ok(d) = NormalInverseGaussian::new(al, be) else { continue };
+            let (mut ra, mut rb) = (rng0.clone(), rng0.clone());
+            let got = guarded(|| d.sample(&mut ra));
+            let refv = guarded(|| {
+                let r = be / al; let gamma = al * (F::one() - r * r).sqrt();
+                let ig: F = InverseGaussian::new(F::one() / gamma, F::one()).unwrap().sample(&mut rb);
+                let n: F = StandardNormal.sample(&mut rb);
+                be * ig + ig.sqrt() * n
+            });
+            push("NormalInverseGaussian", vec![al, be], got, ra.words(), refv, rb.words(), &tag, out);
+        }
         // Normal(0, 1) = StandardNormal
         { let d = Normal::new(F::zero(), F::one()).unwrap(); let (mut ra, mut rb) = (rng0.clone(), rng0.clone());
           let got = guarded(|| d.sample(&mut ra)); let refv = guarded(|| { let n: F = StandardNormal.sample(&mut rb); n });
